@@ -42,11 +42,11 @@ def spec_level(tok):
 def run(ctx):
     ctx.level = 'proof'
     g = lexrules.grammar_of(ctx.repo, CLS)
-    prec_table(ctx, g)
-    n_ob = lalr_rule(ctx, g)
-    layout(ctx, g)
-    optional(ctx, g)
-    keywords(ctx, g)
+    ctx.guard(prec_table, ctx, g)
+    n_ob = ctx.guard(lalr_rule, ctx, g)
+    ctx.guard(layout, ctx, g)
+    ctx.guard(optional, ctx, g)
+    ctx.guard(keywords, ctx, g)
     L = g.lalr()
     total = sum(len(r.instances) for r in ctx.rules)
     bad = sum(len(r.violations) for r in ctx.rules)
